@@ -99,7 +99,7 @@ def snap_float(x):
     if fr is not None:
         SNAP_LOG.setdefault(x, 'rational %s' % fr)
         return const(fr)
-    for k in (1, -1, 2, -2, 3, -3, 4, -4, 5, -5, 6, -6, 7, -7, 8, -8, 9, -9, 10, -10, 11, 12):
+    for k in (1, -1, 2, -2, 3, -3, 4, -4, 5, -5, 6, -6, 7, -7, 8, -8, 9, -9, 10, -10, 11, 12, 13, 14, 15, 16, 17, 18, 19, 20, 21, 22):
         for name, val in _KAPPA.items():
             q = x / (val ** k)
             fr = _snap_rational(q, maxden=16, rel=4e-15 * (1 + abs(k)))
